@@ -362,8 +362,154 @@ func (x *c05ctx) ruleEOF() {
 					"with unprocessed data and an exhausted declaration stack the reader must fail with a typed error; it returns "+cls.String())
 			}
 		}
+		// helpers: static repository callees whose error result Read returns (EOF / leftover-data decisions that were
+		// extracted into a method); facts of the helper's return and of the call site / caller return are combined.
+		x.helperLeaves(h.Read, func(lf c05Leaf) {
+			inner := lf.via[len(lf.via)-1]
+			exh, how := c05SourceExhausted(lf.facts)
+			done := c05StackExhausted(lf.facts, h.stack)
+			if e.isEOFLoad(lf.val) {
+				if !lf.mayEOF {
+					return // the caller only returns this result on a path where it is not io.EOF
+				}
+				nEOF++
+				k := key + " returns io.EOF via " + core.FuncKey(inner)
+				switch {
+				case exh && done:
+					c.OK("R05a.i", k, core.InstrPos(lf.rt), "dominated (helper return + call site) by: "+how+"; len("+h.stack.Name()+") <= 1")
+				case !exh:
+					c.Bad("R05a.i", k, core.InstrPos(lf.rt), "io.EOF is returned on a path on which the unit source has not reported exhaustion: unread input units would be dropped silently")
+				default:
+					c.Bad("R05a.i", k, core.InstrPos(lf.rt), "io.EOF is returned while the declaration stack may still hold unfinished declarations (no dominating len("+h.stack.Name()+") <= 1 edge): unmet minimums would go unreported")
+				}
+				return
+			}
+			if !exh && done && c05StackExhausted(lf.local, h.stack) {
+				cls := ecSet{}
+				for el := range e.classAt(lf.val, lf.pt) {
+					if el.Kind == ecNIL && lf.nonNil {
+						continue
+					}
+					cls[el] = true
+				}
+				if len(cls) == 0 {
+					return
+				}
+				allFatal := true
+				for el := range cls {
+					if el.Kind != ecFATAL {
+						allFatal = false
+					}
+				}
+				c.Check(allFatal, "R05a.i", key+" data left with exhausted stack via "+core.FuncKey(inner), core.InstrPos(lf.rt),
+					"returns a typed error "+cls.String(),
+					"with unprocessed data and an exhausted declaration stack the reader must fail with a typed error; it returns "+cls.String())
+			}
+		})
 		if nEOF == 0 {
 			c.Bad("R05a.i", key+" returns io.EOF", h.Read.Pos(), "the hierarchical reader has no return of io.EOF of its own: the end-of-input protocol the rule checks is gone")
+		}
+	}
+}
+
+// c05Leaf is a returned value of a helper whose error result the hierarchical Read hands to its caller.
+type c05Leaf struct {
+	rt     *ssa.Return
+	pt     ecPoint
+	val    ssa.Value
+	local  []ecFact // facts at the helper's return
+	facts  []ecFact // local facts + facts at every call site / caller return on the chain
+	nonNil bool     // the chain only returns the value when it is non-nil
+	mayEOF bool     // the chain can return the value when it is io.EOF
+	via    []*ssa.Function
+}
+
+type c05Src struct {
+	v  ssa.Value
+	pt ecPoint
+}
+
+// c05Sources expands a returned value through phi-nodes into (value, program point) pairs.
+func c05Sources(v ssa.Value, pt ecPoint, seen map[ssa.Value]bool, out *[]c05Src) {
+	if seen[v] {
+		return
+	}
+	seen[v] = true
+	if phi, ok := v.(*ssa.Phi); ok {
+		for i, ed := range phi.Edges {
+			c05Sources(ed, ecPoint{B: phi.Block().Preds[i], Succ: phi.Block()}, seen, out)
+		}
+		return
+	}
+	*out = append(*out, c05Src{ecUnwrapIface(v), pt})
+}
+
+func c05HasNonNil(facts []ecFact, v ssa.Value) bool {
+	for _, f := range facts {
+		if f.Kind == "nil" && !f.Pos && f.V == ecUnwrapIface(v) {
+			return true
+		}
+	}
+	return false
+}
+
+// helperLeaves visits the returns of the static repository callees (transitively, depth 3) whose error result is
+// returned by top.
+func (x *c05ctx) helperLeaves(top *ssa.Function, visit func(c05Leaf)) {
+	e := x.e
+	var descend func(g *ssa.Function, idx int, outer []ecFact, nonNil, mayEOF bool, via []*ssa.Function)
+	follow := func(fn *ssa.Function, src c05Src, outer []ecFact, nonNil, mayEOF bool, via []*ssa.Function) {
+		call := c05CallOf(src.v)
+		if call == nil || call.Call.IsInvoke() {
+			return
+		}
+		g := call.Call.StaticCallee()
+		if g == nil || g.Blocks == nil || !core.InRepo(core.FuncPkg(g)) || len(via) >= 3 {
+			return
+		}
+		for _, w := range via {
+			if w == g {
+				return
+			}
+		}
+		idx := 0
+		if ex, ok := src.v.(*ssa.Extract); ok {
+			idx = ex.Index
+		}
+		if idx >= g.Signature.Results().Len() || !ecIsError(g.Signature.Results().At(idx).Type()) {
+			return
+		}
+		facts := append(append([]ecFact{}, outer...), e.factsAt(src.pt)...)
+		facts = append(facts, e.factsAt(ecPointOf(call))...)
+		cls := e.classAt(src.v, src.pt)
+		descend(g, idx, facts, nonNil || c05HasNonNil(facts, src.v), mayEOF && (cls.has(ecEOF) || cls.has(ecTOP)), append(append([]*ssa.Function{}, via...), g))
+	}
+	descend = func(g *ssa.Function, idx int, outer []ecFact, nonNil, mayEOF bool, via []*ssa.Function) {
+		for _, rt := range ecReturns(g) {
+			if idx >= len(rt.Results) {
+				continue
+			}
+			var srcs []c05Src
+			c05Sources(rt.Results[idx], ecPointOf(rt), map[ssa.Value]bool{}, &srcs)
+			for _, s := range srcs {
+				local := e.factsAt(s.pt)
+				visit(c05Leaf{rt: rt, pt: s.pt, val: s.v, local: local, facts: append(append([]ecFact{}, local...), outer...),
+					nonNil: nonNil, mayEOF: mayEOF, via: via})
+				follow(g, s, outer, nonNil, mayEOF, via)
+			}
+		}
+	}
+	idxs := ecErrResultIdx(top.Signature)
+	for _, rt := range ecReturns(top) {
+		for _, i := range idxs {
+			if i >= len(rt.Results) {
+				continue
+			}
+			var srcs []c05Src
+			c05Sources(rt.Results[i], ecPointOf(rt), map[ssa.Value]bool{}, &srcs)
+			for _, s := range srcs {
+				follow(top, s, nil, false, true, nil)
+			}
 		}
 	}
 }
@@ -405,14 +551,14 @@ func (x *c05ctx) ruleMore() {
 				continue
 			}
 			key := core.FuncKey(fn)
-			// the line buffer: the unique receiver slice field measured with len() in this function
+			// the line buffer: the unique receiver slice field measured with len() in this function or in the
+			// boolean helpers of the repository it returns
 			bufs := map[*types.Var]bool{}
-			for _, b := range fn.Blocks {
-				for _, in := range b.Instrs {
-					if v, ok := in.(ssa.Value); ok {
-						if f := c05LenOf(v); f != nil {
-							bufs[f] = true
-						}
+			c05LenFields(fn, bufs)
+			for _, rt := range ecReturns(fn) {
+				if call, ok := rt.Results[0].(*ssa.Call); ok {
+					if g := call.Call.StaticCallee(); g != nil && g.Blocks != nil && core.InRepo(core.FuncPkg(g)) {
+						c05LenFields(g, bufs)
 					}
 				}
 			}
@@ -427,27 +573,81 @@ func (x *c05ctx) ruleMore() {
 			for _, rt := range ecReturns(fn) {
 				r0 := rt.Results[0]
 				k := key + " returns more"
-				if kc, ok := r0.(*ssa.Const); ok && kc.Value != nil && kc.Value.Kind() == constant.Bool {
-					if constant.BoolVal(kc.Value) {
-						c.OK("R05a.ii", k, core.InstrPos(rt), "true")
-						continue
-					}
+				switch c05MoreExpr(r0, buf, 0) {
+				case "true":
+					c.OK("R05a.ii", k, core.InstrPos(rt), "true")
+				case "nonempty":
+					c.OK("R05a.ii", k, core.InstrPos(rt), "len("+buf.Name()+") > 0")
+				case "false":
 					cls := e.classAt(rt.Results[1], ecPointOf(rt))
 					c.Check(len(cls) > 0 && !cls.has(ecNIL) && !cls.has(ecTOP), "R05a.ii", k, core.InstrPos(rt), "false only together with a non-nil error "+cls.String(),
 						"returns (false, nil-able error "+cls.String()+") without looking at the line buffer: buffered lines would be reported as 'no more data' and dropped")
-					continue
+				default:
+					c.Unknown("R05a.ii", k, core.InstrPos(rt), "the `more` result is neither a constant nor len("+buf.Name()+") > 0")
 				}
-				if bo, ok := r0.(*ssa.BinOp); ok {
-					fld, op, kk, ok := c05LenFact(ecFact{Kind: "cmp", Bin: bo, Pos: true})
-					if ok && fld == buf && ((op == token.GTR && kk == 0) || (op == token.GEQ && kk == 1) || (op == token.NEQ && kk == 0)) {
-						c.OK("R05a.ii", k, core.InstrPos(rt), "len("+buf.Name()+") > 0")
-						continue
-					}
-				}
-				c.Unknown("R05a.ii", k, core.InstrPos(rt), "the `more` result is neither a constant nor len("+buf.Name()+") > 0")
 			}
 		}
 	}
+}
+
+func c05LenFields(fn *ssa.Function, out map[*types.Var]bool) {
+	for _, b := range fn.Blocks {
+		for _, in := range b.Instrs {
+			if v, ok := in.(ssa.Value); ok {
+				if f := c05LenOf(v); f != nil {
+					out[f] = true
+				}
+			}
+		}
+	}
+}
+
+// c05MoreExpr classifies a `more` result: "true", "false", "nonempty" (true iff len(buf) > 0, possibly computed by a
+// boolean helper all of whose returns are true/nonempty), or "" (unknown).
+func c05MoreExpr(v ssa.Value, buf *types.Var, depth int) string {
+	switch y := v.(type) {
+	case *ssa.Const:
+		if y.Value != nil && y.Value.Kind() == constant.Bool {
+			if constant.BoolVal(y.Value) {
+				return "true"
+			}
+			return "false"
+		}
+	case *ssa.BinOp:
+		fld, op, kk, ok := c05LenFact(ecFact{Kind: "cmp", Bin: y, Pos: true})
+		if ok && fld == buf && ((op == token.GTR && kk == 0) || (op == token.GEQ && kk == 1) || (op == token.NEQ && kk == 0)) {
+			return "nonempty"
+		}
+	case *ssa.UnOp:
+		if y.Op == token.NOT {
+			if bo, ok := y.X.(*ssa.BinOp); ok {
+				fld, op, kk, ok := c05LenFact(ecFact{Kind: "cmp", Bin: bo, Pos: false})
+				if ok && fld == buf && ((op == token.GTR && kk == 0) || (op == token.GEQ && kk == 1) || (op == token.NEQ && kk == 0)) {
+					return "nonempty"
+				}
+			}
+		}
+	case *ssa.Call:
+		g := y.Call.StaticCallee()
+		if g == nil || g.Blocks == nil || !core.InRepo(core.FuncPkg(g)) || depth > 1 || g.Signature.Results().Len() != 1 {
+			return ""
+		}
+		res := ""
+		for _, rt := range ecReturns(g) {
+			switch c05MoreExpr(rt.Results[0], buf, depth+1) {
+			case "true":
+				if res == "" {
+					res = "true"
+				}
+			case "nonempty":
+				res = "nonempty"
+			default:
+				return ""
+			}
+		}
+		return res
+	}
+	return ""
 }
 
 // ---------------------------------------------------------------- R05a.iii
@@ -734,27 +934,9 @@ func (x *c05ctx) ruleNext() {
 						continue
 					}
 					if len(ecUsesThroughPhi(call)) > 0 {
-						h2 := e.handlingOf(call)
-						okRet := true
-						n := 0
-						for _, rt := range ecReturns(fn) {
-							if !ecFailureCause(e.factsAt(ecPointOf(rt)), call) {
-								continue
-							}
-							n++
-							same := false
-							for i, rv := range rt.Results {
-								if ecIsError(fn.Signature.Results().At(i).Type()) && (ecUnwrapIface(rv) == ssa.Value(call) || !e.classAt(rv, ecPointOf(rt)).has(ecNIL)) {
-									same = true
-								}
-							}
-							if !same {
-								okRet = false
-							}
-						}
-						c.Check(len(h2.NilTests) > 0 && h2.OpenRegion == nil && okRet && n > 0, "R05b", key, core.InstrPos(call),
-							"result tested against nil and returned on the failure branch",
-							"the matcher's error (unmet minimum) is not tested and returned at this call site")
+						ok, how := x.resultChecked(fn, call, 0)
+						c.Check(ok, "R05b", key, core.InstrPos(call), how,
+							"the matcher's error (unmet minimum) is not tested and returned at this call site ("+how+")")
 						continue
 					}
 					// discarded: exemption proof
@@ -818,6 +1000,76 @@ func (x *c05ctx) ruleNext() {
 			x.checkValidated(d, minName, maxName, k)
 		}
 	}
+}
+
+// resultChecked: the error result of call (made in fn) is tested against nil with a failure branch that returns it
+// (or a non-nil error), or it is handed unchanged to fn's callers, all of which check it in the same sense.
+func (x *c05ctx) resultChecked(fn *ssa.Function, call *ssa.Call, depth int) (bool, string) {
+	e := x.e
+	idxs := ecErrResultIdx(call.Call.Signature())
+	if len(idxs) != 1 {
+		return false, "callee has no single error result"
+	}
+	v := ecErrValueOf(call, idxs[0])
+	if v == nil || len(ecUsesThroughPhi(v)) == 0 {
+		return false, "result discarded"
+	}
+	h2 := e.handlingOf(v)
+	if len(h2.NilTests) > 0 && h2.OpenRegion == nil {
+		okRet, n := true, 0
+		for _, rt := range ecReturns(fn) {
+			if !ecFailureCause(e.factsAt(ecPointOf(rt)), v) {
+				continue
+			}
+			n++
+			same := false
+			for i, rv := range rt.Results {
+				if ecIsError(fn.Signature.Results().At(i).Type()) && (ecUnwrapIface(rv) == ecUnwrapIface(v) || !e.classAt(rv, ecPointOf(rt)).has(ecNIL)) {
+					same = true
+				}
+			}
+			if !same {
+				okRet = false
+			}
+		}
+		if okRet && n > 0 {
+			return true, "result tested against nil and returned on the failure branch"
+		}
+		return false, "failure branch does not return the error"
+	}
+	// handed up unchanged: every use is a return of fn
+	fnIdx := ecErrResultIdx(fn.Signature)
+	if depth >= 3 || len(fnIdx) != 1 || fn.Parent() != nil {
+		return false, "result neither tested against nil nor handed to a checking caller"
+	}
+	for _, u := range ecUsesThroughPhi(v) {
+		if _, ok := u.(*ssa.Return); !ok {
+			return false, "result neither tested against nil nor only returned"
+		}
+	}
+	if obj := ecCalleeObj(fn); obj == nil || obj.Exported() {
+		return false, "result is returned by an exported function whose callers cannot all be seen"
+	}
+	n := 0
+	for _, g := range x.c.RepoFunctions() {
+		for _, ci := range core.Calls(g) {
+			if ci.Common().StaticCallee() != fn {
+				continue
+			}
+			c2, ok := ci.(*ssa.Call)
+			if !ok {
+				return false, "helper " + core.FuncKey(fn) + " is deferred / started as goroutine"
+			}
+			n++
+			if ok2, why := x.resultChecked(g, c2, depth+1); !ok2 {
+				return false, "returned by " + core.FuncKey(fn) + ", whose caller " + core.FuncKey(g) + " does not check it: " + why
+			}
+		}
+	}
+	if n == 0 {
+		return false, "returned by " + core.FuncKey(fn) + ", which has no static caller"
+	}
+	return true, "handed unchanged to the caller(s) of " + core.FuncKey(fn) + ", which test it against nil and return it"
 }
 
 func c05ConstResult(fn *ssa.Function) (int64, bool) {
